@@ -25,6 +25,9 @@ def r1(ctx: Ctx) -> None:
         en = [pol for c, pol, _ in h.path.conds if key(strip_ver(c)) == "self.is_enabled"]
         ok = h.hook_type == "order" and h.is_before is True and en == [True] and (h.time is None or h.time == NONE) and h.specific_instance in (None, NONE) and h.specific_class in (None, NONE)
         ctx.check(ok, g, h.event.node, f"{PLR}: order-before hook for all times", "EventHook(self, 'order', True, time=None) under is_enabled", f"type={h.hook_type} before={h.is_before} time={short(h.time)} enabled-cond={en}")
+        # nothing but `enabled` (and `there are targets at all`) decides whether the rule is hooked
+        extra = [(strip_ver(c), pol) for c, pol, _ in h.path.conds if key(strip_ver(c)) != "self.is_enabled" and "target_markets" not in key(strip_ver(c))]
+        ctx.check(not extra, g, h.event.node, f"{PLR}: an enabled rule is always hooked (whatever its rate)", "no further condition on the hook", "; ".join(("" if pol else "not ") + short(c) for c, pol in extra) or "none")
     for p in disabled:
         lit = alloc_literal(p, p.exit[1])
         ctx.check(lit is not None and len(lit[1]) == 0, g, g.node, f"{PLR}: no hook when disabled", "return []", short(lit))
@@ -215,3 +218,10 @@ def h3(ctx: Ctx) -> None:
 
     check_triggers(ctx, {("order", "before")})
     check_registration(ctx)
+
+
+@rule("C15.H4", "mechanism shared with C18: targets and rate of the rule are the configured ones (nearest definition wins along an `extends` chain)", "T4 loop structure (same rule as C18.R1)", floor=5)
+def h4(ctx: Ctx) -> None:
+    from .c18 import r1 as inheritance_rule
+
+    inheritance_rule(ctx)
